@@ -23,6 +23,8 @@ ATOMS = ["(p o1)", "(q o1 o2)", "(q o2 o2)", "(r)"]
 # o3 is of type t3, a strict subtype of the declared parameter type t1: the problem parser annotates the fact with the
 # declared type, the trajectory parser (given a problem) with the object's own type -- same ground fact, two routes
 SUB_ATOMS = ["(p o3)", "(q o3 o1)", "(r)"]
+# facts that differ in their second argument only, over a predicate whose parameter names are a prefix of one another
+M_ATOMS = ["(m o3 o1)", "(m o3 o2)", "(q o1 o2)"]
 
 
 def via_trajectory_parser(world, state):
@@ -221,6 +223,10 @@ def tasks_for(tier):
             for rev in (False, True):
                 tasks.append({"atoms": atoms, "fluents_a": list(fa), "fluents_b": list(fb), "reverse_b": rev,
                               "empty_keys": rev != (len(fa) % 2 == 0)})
+    for fa in (FLUENTS[:1], []):
+        for rev in (False, True):
+            tasks.append({"atoms": M_ATOMS, "fluents_a": list(fa), "fluents_b": list(fa), "reverse_b": rev, "empty_keys": not rev})
+    tasks.append({"atoms": M_ATOMS, "fluents_a": [], "fluents_b": [], "reverse_b": False, "empty_keys": False, "route_b": "trajectory"})
     # the two states are built by different routes of the library (problem parser vs trajectory parser with a problem)
     for fa in (FLUENTS[:1], []):
         for rev in (False, True):
